@@ -258,7 +258,10 @@ def runTwice (zone tiS toS lineS extS firstS secondS hint : String) : Result :=
     let d := ms1 != is1 || ms2 != is2
     let p : Option String :=
       if first.panic then some "panic"
-      else if !first.ok then none
+      else if !first.ok then
+        -- a line reported as refused must not have been written all the same (it would be read back by the next
+        -- stage as an emitted line — without the column that could not be rendered)
+        (if !first.bytes.isEmpty then some "line-written-together-with-an-error" else none)
       else
         match second with
         | none => some "second-pass-missing"
